@@ -14,6 +14,7 @@ package stack
 //	fam 4: location class / main flag         (ordering; no args)
 //	fam 5: args: too-large marker ("_", value 0 as parsed), small values, elision
 //	fam 6: args: named pointers (name is a function of the value, as nameArguments leaves them)
+//	fam 7: args: source-processed rendering (Args.Processed is a function of the call site and the values, as augmentation leaves it)
 //
 // Argument records satisfy the validity predicate of parsed snapshots:
 // IsPtr <=> floor < Value < ceiling; "_" arguments have Value 0 and no name;
@@ -26,6 +27,7 @@ const (
 	famLoc
 	famArgFlags
 	famNames
+	famProcessed
 	famCount
 )
 
@@ -68,6 +70,14 @@ func vhAggCall(tag string, fam int) Call {
 		if fam == famArgFlags {
 			c.Args.Elided = vBool(tag + ".elided")
 			c.Args.Values[1].Fields.Elided = vBool(tag + ".elidedfields")
+		}
+	case famProcessed:
+		if vBool(tag + ".p3") {
+			c.Args.Values = []Arg{{Value: 3}}
+			c.Args.Processed = []string{"3"}
+		} else {
+			c.Args.Values = []Arg{{Value: 4}}
+			c.Args.Processed = []string{"4"}
 		}
 	case famFrame:
 		c.Func.Complete = vString(tag+".fn", 1)
@@ -302,7 +312,7 @@ func vhArgEq(a, b *Arg) bool {
 //
 //verif:prop C12
 //verif:param k quick=2..3 thorough=2..4
-//verif:param fam 0,1,3,5,6
+//verif:param fam 0,1,3,5,6,7
 //verif:param level 0..3
 //verif:param perm quick=0,5 thorough=0,5,7,23
 //verif:summarize (*Signature).similar (*Signature).equal (*Signature).less (*Stack).less
@@ -348,6 +358,16 @@ func VH_Agg_Generalises(k, fam, level, perm int) {
 				vAssert(vImplies(in[i], vAnd(bc.Func.Complete == gc.Func.Complete, vAnd(bc.RemoteSrcPath == gc.RemoteSrcPath, bc.Line == gc.Line))), "bucket frame is every member's frame")
 				vAssert(vImplies(in[i], len(bc.Args.Values) == len(gc.Args.Values)), "bucket argument count is every member's")
 				vAssert(vImplies(in[i], bc.Args.Elided == gc.Args.Elided), "bucket argument elision is every member's")
+				if len(bc.Args.Processed) != 0 {
+					// rendering prefers Processed over Values
+					same := len(bc.Args.Processed) == len(gc.Args.Processed)
+					if same {
+						for pi := range bc.Args.Processed {
+							same = vAnd(same, bc.Args.Processed[pi] == gc.Args.Processed[pi])
+						}
+					}
+					vAssert(vImplies(in[i], same), "a source-processed rendering shown for the bucket is every member's")
+				}
 			}
 			for ai := range bc.Args.Values {
 				vhCheckArg(s, in, f, []int{ai}, &bc.Args.Values[ai])
